@@ -56,6 +56,7 @@ DART_KERNELS = {
     12: ("dart.operation", "snax_xdma", "rescale", "i8", "i32", DM),
     13: ("dart.operation", "snax_xdma", "mul", "i32", "i32", COMPUTE),
     14: ("dart.schedule", "snax_xdma", "add", "i8", "i8", COMPUTE),
+    15: ("dart.operation", "snax_xdma", "rescale", "i32", "i32", COMPUTE),  # kernel class of an extension, operand types of none
 }
 XDMA_FLAVOR_MIN = 10
 
@@ -194,9 +195,9 @@ def count_loops(stmts):
 
 
 C14_FLAGS = dict(w_copy=4, w_gen=4, w_view=2, w_alloc=1, w_use=1, w_op=2, w_call=1, w_bar=1, w_dealloc=0, w_for=3, w_if=3,
-                 w_region=1, flavors=[0, 0, 1, 2, 3, 4, 5, 5, 6, 6, 7, 8, 9, 10, 11, 12, 13, 14])
+                 w_region=1, flavors=[0, 0, 1, 2, 3, 4, 5, 5, 6, 6, 7, 8, 9, 10, 11, 12, 13, 14, 15])
 C13_FLAGS = dict(w_copy=6, w_gen=6, w_view=3, w_alloc=2, w_use=1, w_op=0, w_call=0, w_bar=1, w_dealloc=2, w_for=8, w_if=4,
-                 w_region=0, w_scoped=2, w_diamond=3, flavors=[0, 0, 1, 2, 3])
+                 w_region=0, w_scoped=2, w_diamond=3, flavors=[0, 0, 0, 1, 2, 3, 5, 6, 10, 10, 11, 12, 13, 14, 14, 15])
 
 
 @st.composite
